@@ -438,6 +438,25 @@ func (vc *VC) verifyRun(fn *ssa.Function, fc *FuncContract, key, caseName string
 	for _, p := range fn.Params {
 		args = append(args, vc.fresh(p.Type(), p.Name(), st))
 	}
+	for _, dd := range fc.DynTypes {
+		if dd.Case != caseName {
+			continue
+		}
+		T := vc.eng.lookupType(fn.Pkg, dd.Type)
+		if T == nil {
+			panic(specError{"dyn: unknown type " + dd.Type})
+		}
+		found := false
+		for i, p := range fn.Params {
+			if p.Name() == dd.Param {
+				args[i] = IfaceVal{Dyn: T, V: vc.fresh(T, p.Name()+".dyn", st)}
+				found = true
+			}
+		}
+		if !found {
+			panic(specError{"dyn: no parameter " + dd.Param})
+		}
+	}
 	var bind []Val
 	for _, fv := range fn.FreeVars {
 		bind = append(bind, vc.fresh(fv.Type(), fv.Name(), st))
